@@ -15,7 +15,6 @@ import (
 	"fmt"
 	"os"
 	"path/filepath"
-	"runtime/pprof"
 	"sort"
 	"sync"
 	"time"
@@ -70,11 +69,6 @@ func main() {
 		return
 	}
 
-	if pf := os.Getenv("C16_PROF"); pf != "" { // developer aid
-		f, _ := os.Create(pf)
-		pprof.StartCPUProfile(f)
-		defer pprof.StopCPUProfile()
-	}
 	t0 := time.Now()
 	phase := func(n string) {
 		fmt.Fprintf(os.Stderr, "phase %s done at %.1fs\n", n, time.Since(t0).Seconds()) // progress only, never enters a verdict
@@ -125,7 +119,7 @@ func main() {
 	}
 
 	pairs := 0
-	if os.Getenv("C16_SKIP_PAIRS") == "" { // developer aid
+	{
 		runJobs("pair", func(out chan<- job) {
 			r := c.Rand("pair-patterns")
 			pairCases(5, c.Thorough(), r, func(geom string, ops []Op) {
@@ -141,7 +135,7 @@ func main() {
 	phase("pairs")
 
 	// ---- 1b. random histories
-	nh, nops := c.Pick(36, 400), c.Pick(150, 300)
+	nh, nops := c.Pick(48, 400), c.Pick(200, 300)
 	runJobs("hist", func(out chan<- job) {
 		for i := 0; i < nh; i++ {
 			ops := genHistory(c.Rand(fmt.Sprintf("hist-%d", i)), nops)
@@ -205,6 +199,8 @@ func main() {
 	close(cfgCh)
 	wg.Wait()
 	c.Count("mbr_configurations", len(cfgs))
+	c.Sample(map[string]interface{}{"kind": "membership-request", "case": mbrCase{Part: "mbr", mbrCfg: mbrCfg{N: 3, Removed: 1, Health: []int{0, 0, 2}, Leader: 0}, Path: "api", Req: mbrReq{Target: 1}},
+		"expected": "refused: removing healthy m1 leaves 1 healthy of 2 members (quorum 2)"})
 	phase("membership table")
 
 	walks := c.Pick(40, 400)
@@ -244,7 +240,6 @@ func main() {
 	}
 	c.Set("removed_block_lookup_rule", "GetRaftEntryOfBlock(hash of a block whose entry was overwritten/cleared) must be an error or an entry that does not carry that block; observed outcomes are counted in wal_removed_block_lookup_*")
 
-	pprof.StopCPUProfile()
 	c.Finish("every restart after every op reproduces the reference log (entries, absent indices, last index, inverse map, blocks, hard state, snapshot, identity, ReadAll); every crash state inside an append is old-or-new; every membership request decided per the rule table",
 		c.Pick(5000, 50000),
 		"restart = Close + new ChainDB on the same directory (memorydb persists on Close); crash states = store content after each durable unit of an append, on memorydb semantics (units atomic)",
